@@ -508,6 +508,14 @@ func tEq(a, b *Term) *Term {
 		// Go == on floats is IEEE equality
 		return mk(OpFEq, SBool, 1, 0, a, b)
 	}
+	if a.op == OpConst && b.op == OpIte {
+		a, b = b, a
+	}
+	if b.op == OpConst && a.op == OpIte {
+		if r, ok := iteLeavesAgree(a, func(l *Term) bool { return l.val == b.val }); ok {
+			return mkBool(r)
+		}
+	}
 	return mk(OpEq, SBool, 1, 0, a, b)
 }
 func tIte(c, a, b *Term) *Term {
@@ -530,12 +538,54 @@ func tIte(c, a, b *Term) *Term {
 	}
 	return mk(OpIte, a.sort, a.w, 0, c, a, b)
 }
+// iteLeavesAgree: t is a tree of ite nodes whose leaves are all constants; if
+// f gives the same answer on every leaf that answer is returned. (Digits
+// produced by table lookups are such trees; without this every byte test of a
+// parser over them would cost a solver query.)
+func iteLeavesAgree(t *Term, f func(leaf *Term) bool) (bool, bool) {
+	first, have := false, false
+	n := 0
+	var walk func(t *Term) bool
+	walk = func(t *Term) bool {
+		n++
+		if n > 2000 {
+			return false
+		}
+		switch t.op {
+		case OpConst:
+			r := f(t)
+			if !have {
+				first, have = r, true
+				return true
+			}
+			return r == first
+		case OpIte:
+			return walk(t.args[1]) && walk(t.args[2])
+		}
+		return false
+	}
+	if t.op != OpIte || !walk(t) {
+		return false, false
+	}
+	return first, true
+}
+
 func tBin(op Op, a, b *Term) *Term {
 	if a.w != b.w {
 		panic(fmt.Sprintf("tBin width mismatch op=%d %d vs %d", op, a.w, b.w))
 	}
 	switch op {
 	case OpULt, OpULe, OpSLt, OpSLe:
+		if b.op == OpConst && a.op == OpIte {
+			if r, ok := iteLeavesAgree(a, func(l *Term) bool { return mk(op, SBool, 1, 0, l, b).val != 0 }); ok {
+				return mkBool(r)
+			}
+		}
+		if a.op == OpConst && b.op == OpIte {
+			if r, ok := iteLeavesAgree(b, func(l *Term) bool { return mk(op, SBool, 1, 0, a, l).val != 0 }); ok {
+				return mkBool(r)
+			}
+		}
 		return mk(op, SBool, 1, 0, a, b)
 	case OpFLt, OpFLe, OpFEq:
 		return mk(op, SBool, 1, 0, a, b)
@@ -549,6 +599,15 @@ func tBin(op Op, a, b *Term) *Term {
 	case OpSub, OpShl, OpLShr, OpAShr:
 		if b.op == OpConst && b.val == 0 {
 			return a
+		}
+	case OpUDiv, OpURem:
+		// dividing a zero-extended narrow value by a small constant: do it at the
+		// narrow width (a 64-bit divider per query is what stalls bit-blasting)
+		if a.op == OpZExt && b.op == OpConst && b.val != 0 {
+			n := a.args[0]
+			if n.w < a.w && b.val <= mask(n.w) {
+				return tZExt(mk(op, SBV, n.w, 0, n, mkBV(n.w, b.val)), a.w)
+			}
 		}
 	}
 	return mk(op, a.sort, a.w, 0, a, b)
